@@ -1,6 +1,18 @@
 package main
 
-import "github.com/bradenaw/juniper/xslices"
+import (
+	"context"
+	"math/rand"
+
+	"github.com/bradenaw/juniper/stream"
+	"github.com/bradenaw/juniper/xmath/xrand"
+	"github.com/bradenaw/juniper/xslices"
+)
 
 func xslicesChunk(l []int, n int) [][]int                { return xslices.Chunk(l, n) }
 func xslicesRuns(l []int, same func(a, b int) bool) [][]int { return xslices.Runs(l, same) }
+
+// xrand.RSampleStream with a seeded source of randomness.
+func xrandSampleStream(ctx context.Context, seed int64, s stream.Stream[int], k int) ([]int, error) {
+	return xrand.RSampleStream(ctx, rand.New(rand.NewSource(seed)), s, k)
+}
